@@ -1,5 +1,6 @@
 import Propka.Model.CoupleSearch
 import Propka.Props.C01Coupling
+import Propka.Props.C15
 /-! C15 on the model of the whole search for non-covalently coupled groups of a conformation (`Model/CoupleSearch.lean`, the one
     `Program.run` executes between scoring and averaging): whatever the records, parameters and scalar, the coupling lists it
     leaves are symmetric - if A is marked coupled to B then B is marked coupled to A -, and a group is starred exactly when its list
@@ -65,6 +66,110 @@ theorem identify_coupling_symm (cp : CP α) (st : Array (Static α)) (gs : Array
     constructor <;> (intro h; split at h <;> simp at h)
   exact (inv (pairs st) (fun p hp => by rw [← hsz]; exact mem_pairs_lt st p hp)
     ⟨gs, Array.replicate gs.size none, Array.replicate gs.size []⟩ (by simp) hempty).2
+end
+
+/-! ### the search observes without disturbing (exact arithmetic; any model of `10**x` and `log10`) -/
+section
+variable [Profiles.PowLog ℚ]
+
+/-- whatever the gates decide, the probe leaves the table of records untouched or replaces the two records of the pair by the
+    records swapped twice -/
+theorem probePair_gs (cp : CP ℚ) (st : Array (Static ℚ)) (s : St ℚ) (i j : Nat) :
+    (probePair cp st s i j).1.gs = s.gs ∨
+    ∃ g1 g2, s.gs[i]? = some g1 ∧ s.gs[j]? = some g2 ∧
+      (probePair cp st s i j).1.gs =
+        (s.gs.setIfInBounds i (Dets.probePair cp.fixed g1 g2).1).setIfInBounds j (Dets.probePair cp.fixed g1 g2).2 := by
+  unfold probePair
+  split
+  · rename_i g1 g2 s1 s2 h1 h2 _ _
+    simp only
+    repeat' split
+    all_goals first
+      | exact Or.inl rfl
+      | exact Or.inr ⟨g1, g2, h1, h2, rfl⟩
+  · exact Or.inl rfl
+
+theorem searchStep_gs (cp : CP ℚ) (st : Array (Static ℚ)) (s : St ℚ) (ij : Nat × Nat) :
+    (searchStep cp st s ij).gs = s.gs ∨
+    ∃ g1 g2, s.gs[ij.1]? = some g1 ∧ s.gs[ij.2]? = some g2 ∧
+      (searchStep cp st s ij).gs =
+        (s.gs.setIfInBounds ij.1 (Dets.probePair cp.fixed g1 g2).1).setIfInBounds ij.2 (Dets.probePair cp.fixed g1 g2).2 := by
+  unfold searchStep
+  split
+  · exact Or.inl rfl
+  · split
+    · split
+      · exact probePair_gs cp st s ij.1 ij.2
+      · exact probePair_gs cp st s ij.1 ij.2
+    · exact probePair_gs cp st s ij.1 ij.2
+
+theorem mem_takeWhile_true {β : Type} (p : β → Bool) : ∀ (l : List β) (x : β), x ∈ l.takeWhile p → p x = true
+  | [], _, h => by simp at h
+  | a :: l, x, h => by
+    rw [List.takeWhile_cons] at h
+    split at h
+    · rcases List.mem_cons.mp h with e | e
+      · subst e; assumption
+      · exact mem_takeWhile_true p l x e
+    · simp at h
+
+theorem mem_pairs_ne (st : Array (Static ℚ)) (p : Nat × Nat) (h : p ∈ pairs st) : p.1 ≠ p.2 := by
+  unfold pairs at h
+  simp only [List.mem_flatMap, List.mem_map] at h
+  obtain ⟨i, _, j, hj, rfl⟩ := h
+  have := mem_takeWhile_true _ _ _ hj
+  simp only [bne_iff_ne, ne_eq] at this
+  exact fun e => this e.symm
+
+/-- **C15 on the program's search**: after `identify` (the probes of all pairs of titratable groups in turn, with every gate, the
+    memoised intrinsic pKa values and the folding energy of the whole conformation) every group of the conformation has the results
+    it had after scoring - pKa, both desolvation terms, every determinant with its partner and label, as multisets - and is up to
+    date: every temporary swap is undone exactly.  For every table of records, every parameter set, exact arithmetic. -/
+theorem identify_preserves_results (cp : CP ℚ) (st : Array (Static ℚ)) (gs : Array (GRec ℚ)) (dflt : GRec ℚ) (hsz : st.size = gs.size)
+    (hu : ∀ i, i < gs.size → Dets.UpToDate cp.fixed (gs.getD i dflt)) :
+    (identify cp st gs).gs.size = gs.size ∧
+    ∀ i, i < gs.size → Dets.SameResults ((identify cp st gs).gs.getD i dflt) (gs.getD i dflt) ∧
+      Dets.UpToDate cp.fixed ((identify cp st gs).gs.getD i dflt) := by
+  unfold identify
+  have inv : ∀ (ps : List (Nat × Nat)), (∀ p ∈ ps, p.1 ≠ p.2 ∧ p.1 < gs.size ∧ p.2 < gs.size) → ∀ s : St ℚ, s.gs.size = gs.size →
+      (∀ i, i < gs.size → Dets.SameResults (s.gs.getD i dflt) (gs.getD i dflt) ∧ Dets.UpToDate cp.fixed (s.gs.getD i dflt)) →
+      (ps.foldl (searchStep cp st) s).gs.size = gs.size ∧
+      ∀ i, i < gs.size → Dets.SameResults ((ps.foldl (searchStep cp st) s).gs.getD i dflt) (gs.getD i dflt) ∧
+        Dets.UpToDate cp.fixed ((ps.foldl (searchStep cp st) s).gs.getD i dflt) := by
+    intro ps
+    induction ps with
+    | nil => intro _ s h1 h2; exact ⟨h1, h2⟩
+    | cons p ps ih =>
+      intro hp s h1 h2
+      simp only [List.foldl_cons]
+      obtain ⟨hne, hl1, hl2⟩ := hp p List.mem_cons_self
+      apply ih (fun q hq => hp q (List.mem_cons_of_mem _ hq))
+      · rcases searchStep_gs cp st s p with h | ⟨g1, g2, _, _, h⟩
+        · rw [h]; exact h1
+        · rw [h]; simp [h1]
+      · rcases searchStep_gs cp st s p with h | ⟨g1, g2, e1, e2, h⟩
+        · rw [h]; exact h2
+        · intro i hi
+          have d1 : s.gs.getD p.1 dflt = g1 := by rw [Array.getD_eq_getD_getElem?, e1]; rfl
+          have d2 : s.gs.getD p.2 dflt = g2 := by rw [Array.getD_eq_getD_getElem?, e2]; rfl
+          have u1 := (h2 p.1 hl1).2
+          have u2 := (h2 p.2 hl2).2
+          rw [d1] at u1; rw [d2] at u2
+          have hr := Dets.probe_preserves cp.fixed g1 g2 u1 u2
+          have hk := Dets.probe_uptodate cp.fixed g1 g2
+          rw [h, Dets.getD_set2 _ _ _ _ _ (by simp; rw [h1]; exact hl2), Dets.getD_set2 _ _ _ _ _ (by rw [h1]; exact hl1)]
+          by_cases c2 : i = p.2
+          · rw [if_pos c2]
+            refine ⟨Dets.sameResults_trans _ _ _ hr.2 ?_, hk.2⟩
+            rw [← d2, ← c2]; exact (h2 i hi).1
+          · rw [if_neg c2]
+            by_cases c1 : i = p.1
+            · rw [if_pos c1]
+              refine ⟨Dets.sameResults_trans _ _ _ hr.1 ?_, hk.1⟩
+              rw [← d1, ← c1]; exact (h2 i hi).1
+            · rw [if_neg c1]; exact h2 i hi
+  exact inv (pairs st) (fun p hp => ⟨mem_pairs_ne st p hp, by rw [← hsz]; exact (mem_pairs_lt st p hp).1, by rw [← hsz]; exact (mem_pairs_lt st p hp).2⟩)
+    ⟨gs, Array.replicate gs.size none, Array.replicate gs.size []⟩ rfl (fun i hi => ⟨Dets.sameResults_refl _, hu i hi⟩)
 end
 
 end Propka.CoupleSearch
